@@ -526,6 +526,8 @@ class ExprMixin:
     def index(self, v, k, st, node):
         if isinstance(v, OptV):
             v = self.unopt(v, st, node)
+        if isinstance(k, OptV):
+            k = self.unopt(k, st, node)
         if isinstance(k, SliceV):
             if (k.lo, k.hi, k.step) == (None, None, -1) and isinstance(v, (ListLoc, SeqV)):
                 sv = self.as_seq(v, st)
